@@ -477,7 +477,7 @@ fn main() {
 
     // envelope: format x channels x detector x pattern x schedule variant
     let mut jobs = Vec::new();
-    let variants = cli.t(4usize, 24usize);
+    let variants = cli.t(4usize, 100usize);
     for fi in 0..6 {
         for ch in [1usize, 2] {
             for det in 0..6 {
@@ -489,7 +489,7 @@ fn main() {
             }
         }
     }
-    let n = cli.t(300usize, 1500usize);
+    let n = cli.t(300usize, 4000usize);
     let reps = vmon::par_for(cli.threads, jobs.len() as u64, 8, |_| Report::new("C19", "w"), |rep, i| {
         let (fi, ch, det, p, w) = jobs[i as usize];
         run_any(rep, FNAMES[fi], ch, det, p, n, cli.seed.wrapping_add(w as u64), w);
